@@ -1,5 +1,5 @@
 //! unit: u03b
-//! properties: C03 C14
+//! properties: C03 C14 C02
 //! note: process_onion_failure_inner: what the sender learns from a decoded failure -- a failure that did not come from the final node always blames a node or a channel next to the node that sent it (so the retry avoids it), and the payment is reported as failed permanently only on the final node's word
 //! trusted: R15 (deep slice): the classification block of process_onion_failure_inner (from reading the code's debug field to the FailureLearnings value) verbatim as a function of (error_code, is_from_final_non_blinded_node, route_hop, failing_route_hop, err_packet); peeling the failure onion, the HMAC test and attribution-data handling before it are dropped and not claimed here (hold times: unit u14b)
 //! trusted: env: LocalHTLCFailureReason is a three-variant skeleton (the two variants the block names + Other(code)); its predicates is_badonion / is_node / is_permanent / is_temporary / get_onion_debug_field are external_body answering uninterpreted functions of the code (any code table), is_recipient_failure unconstrained; ErrorHop / RouteHop / TrampolineHop / FailureLearnings are the function-local types re-declared (ErrorHop::{pubkey, short_channel_id} external_body with the bodies' meaning); NetworkUpdate is extracted; PublicKey opaque Copy; R3: log statements removed; R8: `v.get(a..b)` on the failure message -> get_range (Some iff a <= b <= len, then the bytes a..b), `u16::from_be_bytes(s.try_into().expect(..))` -> be16 (unconstrained value)
@@ -118,7 +118,7 @@ pub fn opt_txid_eq(a: Option<Txid>, b: Option<Txid>) -> (r: bool) ensures r == (
 //@with
     opt_txid_eq(Some(confirmed_txid), funding.$f)
 //@ret r
-//@ensures P C03 on-restart-a-confirmed-counterparty-commitment-is-recognised-whether-it-is-the-current-or-the-previous-unrevoked-one-so-its-live-htlcs-are-not-reported-failed
+//@ensures P C03,C02 on-restart-a-confirmed-counterparty-commitment-is-recognised-whether-it-is-the-current-or-the-previous-unrevoked-one-so-its-live-htlcs-are-not-reported-failed
     r == (funding.current_counterparty_commitment_txid == Some(confirmed_txid) || funding.prev_counterparty_commitment_txid == Some(confirmed_txid)),
 //@mutant previous_unrevoked_commitment_not_recognised
     if Some(confirmed_txid) == funding.current_counterparty_commitment_txid || Some(confirmed_txid) == funding.prev_counterparty_commitment_txid {
@@ -133,7 +133,7 @@ pub fn opt_txid_eq(a: Option<Txid>, b: Option<Txid>) -> (r: bool) ensures r == (
 //@ret r
 //@requires
     event.height < 0xffff_0000,
-//@ensures P C03 on-restart-htlcs-are-reported-failed-only-against-a-commitment-that-has-reached-the-anti-reorg-depth
+//@ensures P C03,C02,C10 on-restart-htlcs-are-reported-failed-only-against-a-commitment-that-has-reached-the-anti-reorg-depth
     r == (us.best_block.height as int - event.height as int + 1 >= ANTI_REORG_DELAY as int),
 //@end
 pub struct EventStub { pub height: u32, pub txid: Txid }
